@@ -5,7 +5,8 @@ from runner import Violation
 
 
 def run_conc(ctx, profile, maxruns, schedules=None):
-    env = {"VERIF_OUT": ctx.rd, "VERIF_SEED": ctx.seed, "VERIF_PROFILE": profile, "VERIF_MAXRUNS": maxruns}
+    env = {"VERIF_OUT": ctx.rd, "VERIF_SEED": ctx.seed, "VERIF_PROFILE": profile, "VERIF_MAXRUNS": maxruns,
+           "VERIF_GEN": 60 if ctx.thorough else 12, "VERIF_GENRUNS": 30 if ctx.thorough else 10}
     if schedules:
         env["VERIF_SCHEDULES"] = schedules
     rc, out = C.go_test("./pkg/inline/db", "TestVerifConc", env, timeout=3000)
@@ -13,6 +14,10 @@ def run_conc(ctx, profile, maxruns, schedules=None):
     if rc != 0 or not os.path.exists(os.path.join(ctx.rd, profile + ".conc.stats.json")):
         return None, out
     runs = [json.loads(l) for l in open(p) if l.strip()]
+    for r in runs:
+        for f in ("setup", "setup_res", "final", "final_res", "ops", "trace", "sched", "cands"):
+            if r.get(f) is None:
+                r[f] = []
     return runs, out
 
 
@@ -51,6 +56,47 @@ def explain(ctx, runs, tag):
     explain.relaxed = relaxed
     return explained, len(index)
 
+
+
+# ---- free-running stress with specification-derived oracles ------------------------------------------------
+
+STRESS = {  # property -> (programs, oracle prefixes that are violations of THIS property)
+    "C06": (["register", "pair"], ("read-missing", "register-", "pair-invented", "pair-error", "gc-error", "register-error", "pair-hang", "register-hang", "pair-panic", "register-panic")),
+    "C07": (["counter"], ("lost-update", "counter-")),
+    "C08": (["pair", "beginrace"], ("snapshot-", "beginrace-", "begin-error")),
+    "C09": (["beginrace", "pair"], ("snapshot-missing", "snapshot-unstable", "read-missing", "gc-error")),
+}
+
+
+def stress(ctx, prop, ms=None, race=False):
+    """returns (violations, coverage)"""
+    progs, mine = STRESS[prop]
+    ms = ms or (3000 if ctx.thorough else 700)
+    viol, total, ran = [], 0, []
+    for prog in progs:
+        rc, out = C.go_test("./pkg/inline/db", "TestVerifConcStress", {"VERIF_OUT": ctx.rd, "VERIF_STRESS_MS": ms, "VERIF_STRESS": prog},
+                            race=race, timeout=1200)
+        sp = os.path.join(ctx.rd, "stress.json")
+        if (rc != 0 and "DATA RACE" not in out) or not os.path.exists(sp):
+            rp = C.write_replay(prop, "stress-failed", {"property": prop, "kind": "impl-run-failed", "go_test_output": out[-6000:]})
+            viol.append(Violation("stress-run-failed", "the free-running stress `%s` failed to run: %s" % (prog, out.strip().split("\n")[-1][:160]), rp))
+            continue
+        st = json.load(open(sp))
+        os.remove(sp)
+        total += st.get("ops", 0)
+        ran.append(prog)
+        seen = set()
+        for b in st.get("bad") or []:
+            if not b["oracle"].startswith(mine) or b["oracle"] in seen:
+                continue
+            seen.add(b["oracle"])
+            rp = C.write_replay(prop, "stress-" + b["oracle"], {"property": prop, "kind": "stress", "program": prog, "oracle": b["oracle"],
+                                "observed": [x for x in st["bad"] if x["oracle"] == b["oracle"]][:5], "ms": ms,
+                                "replay_env": "VERIF_STRESS=%s VERIF_STRESS_MS=%d go test -tags verif -run TestVerifConcStress ./pkg/inline/db (free-running goroutines: re-run until it shows)" % (prog, ms),
+                                "repo": C.repo_head()})
+            viol.append(Violation("%s-stress-%s" % (prop.lower(), b["oracle"]), "free-running stress `%s` on the real database: %s" % (prog, b["what"][:400]), rp))
+    return viol, {"stress_programs": ran, "stress_operations": total, "stress_ms_per_program": ms,
+                  "stress_rule": "free-running goroutines (no scheduler) on the real database with the collector running all the time; oracles derived from Spec.Iso for these programs: snapshot sees all-or-nothing of every commit and re-reads stably, a key that always has a value is never missing, the counter equals the number of successful snapshot commits, a single-key register is linearizable"}
 
 
 # ---- the same schedule in the small-step Lean model (Model/Conc) --------------------------------------------
@@ -229,6 +275,8 @@ def correspond(ctx, prop, profile, quick_runs, thorough_runs, what, witnesses=No
         rp = C.write_replay(prop, "%s-smallstep-tie" % r["scenario"], payload)
         violations.append(Violation(sig, "scenario %s, schedule %s: the real database answered `%s` where the small-step model answers `%s` to `%s` under the same schedule (tie of Model/Conc broken)"
                                     % (r["scenario"], " ".join(r["sched"]), want, got, cmd), rp, found_input=False))
+    sv, scov = stress(ctx, prop) if prop in STRESS else ([], {})
+    violations += sv
     distinct = len(set((r["scenario"], tuple(r["trace"])) for r in allruns))
     nontriv = len(set((r["scenario"], tuple(r["trace"])) for r in allruns if any(t.startswith("blocked") for t in r["trace"]) or len(set(r["sched"])) > 1))
     by_sc = {}
@@ -238,11 +286,11 @@ def correspond(ctx, prop, profile, quick_runs, thorough_runs, what, witnesses=No
                 "answers": ["%s:%s→%s" % (o["actor"], o["op"], o["res"]) for o in r["ops"]], "final": r["final_res"]}
                for r in allruns[:3]]
     cov = {"evaluations": len(allruns), "distinct_nontrivial": nontriv,
-           "rule": "schedules of small client programs enforced on the real inline database at the verif hook points and operation boundaries (stateless DFS over actor choices, random order beyond the first); distinct = different event trace, non-trivial = at least two actors interleaved; every run's answers must be explained by some linearization under Spec.Iso (%d candidate linearizations evaluated by the Lean driver)" % ncands,
+           "rule": "schedules of small client programs (fixed scenarios + generated ones: 2-3 actors, autocommit / RU / RC / snapshot transactions, collector, pool drain over two keys) enforced on the real inline database at the verif hook points and operation boundaries (stateless DFS over actor choices, random order beyond the first); distinct = different event trace, non-trivial = at least two actors interleaved; every run's answers must be explained by some linearization under Spec.Iso (%d candidate linearizations evaluated by the Lean driver)" % ncands,
            "traces_validated_against_impl": len(allruns), "distribution": {"runs_by_scenario": by_sc, "distinct_traces": distinct},
-           "samples": samples, "smallstep_model_replays": ss_n,
+           "samples": samples, "smallstep_model_replays": ss_n, "stress": scov,
            "smallstep_rule": "every enforced run without a goroutine blocked on a lock of the real code is replayed in the small-step Lean model Model/Conc under the same schedule (hook points = program counters); every answer of every operation must be the one the model computes",
-           "summary": "%d enforced schedules, all linearizable; %d replayed step by step in the small-step model with equal answers" % (len(allruns), ss_n)}
+           "summary": "%d enforced schedules, all linearizable; %d replayed step by step in the small-step model with equal answers; %d free-running stress operations within the oracles" % (len(allruns), ss_n, scov.get("stress_operations", 0))}
     return {"violations": violations, "coverage": cov}
 
 
